@@ -4,6 +4,7 @@ import IbicusModel.Lemmas.GenIsimipFreq
 import IbicusModel.Lemmas.GenIsimipVars
 import IbicusModel.Lemmas.GenIsimipSteps
 import IbicusModel.Lemmas.GenIsimipSteps2
+import IbicusModel.Lemmas.GroupMax
 import IbicusModel.Lemmas.GenDebWinSdm
 import IbicusModel.Lemmas.GenIsimipStep6
 -- property theorems
@@ -117,6 +118,12 @@ import IbicusModel.Lemmas.GenIsimipStep6
 #print axioms Lemmas.GenDebWinSdm.cdft_steps_denote_methods_single
 #print axioms Lemmas.GenIsimipSteps2.step1_eq_partial
 #print axioms Lemmas.GenIsimipSteps2.step8_wiring_eq
+-- tier A, ISIMIP step 1 unconditional: the reduceat route on a sorted series = the per-day maxima (`GroupMax` proved), any sorting argsort
+#print axioms Lemmas.GroupMax.groupMax_of_sorted
+#print axioms Lemmas.GroupMax.sorts_stableArgsort
+#print axioms Lemmas.GroupMax.sortedRoute_of_sorts
+#print axioms Lemmas.GroupMax.get_annual_cycle_of_upper_bounds_eq
+#print axioms Lemmas.GroupMax.step1_eq
 -- tier A, ISIMIP part 3: `_step6_adjust_values_between_thresholds`, `step6`, the wrappers and `_apply_on_window` regenerated = model
 #print axioms Lemmas.GenIsimipStep6.adjust_eq
 #print axioms Lemmas.GenIsimipStep6.adjust_unbounded
